@@ -312,3 +312,36 @@ theorem MemBytes.cstr_at {m : Mem} {b : Nat} {pre mid rest : List UInt8} (h : Me
   rw [hd, cstrFrom_drop, cstrFrom_str _ hp]
 
 end MiniC
+
+namespace MiniC
+
+/-- a block is not touched by writes to other blocks -/
+theorem MemBytes.frame {m m' : Mem} {b b0 : Nat} {cells : List UInt8} (h : MemBytes m b cells)
+    (hoth : ∀ b', b' ≠ b0 → m'[b']? = m[b']?) (hne : b ≠ b0) : MemBytes m' b cells := by
+  obtain ⟨blk, h1, h2, h3, h4⟩ := h.blk
+  exact ⟨⟨blk, by rw [hoth b hne]; exact h1, h2, h3, h4⟩⟩
+
+/-- a live, writable one-byte object (e.g. a `bool` the caller passes by address), initialised or not -/
+def MemCell (m : Mem) (b : Nat) : Prop := ∃ blk, m[b]? = some blk ∧ blk.live = true ∧ blk.writable = true ∧ blk.cells.length = 1
+
+theorem MemCell.store {m : Mem} {b : Nat} (h : MemCell m b) (v : Int) :
+    ∃ m', m.store8 b 0 v = .ok m' ∧ MemBytes m' b [byteOf v] ∧ m'.length = m.length ∧ ∀ b', b' ≠ b → m'[b']? = m[b']? := by
+  obtain ⟨blk, h1, h2, h4, h3⟩ := h
+  have hb : b < m.length := by
+    rcases Nat.lt_or_ge b m.length with h | h
+    · exact h
+    · rw [List.getElem?_eq_none h] at h1; cases h1
+  obtain ⟨x, hx⟩ : ∃ x, blk.cells = [x] := by
+    match hc : blk.cells, h3 with
+    | [x], _ => exact ⟨x, rfl⟩
+  refine ⟨m.set b { blk with cells := blk.cells.set 0 (some (byteOf v)) }, ?_, ⟨⟨{ blk with cells := blk.cells.set 0 (some (byteOf v)) }, by simp [hb], h2, h4, ?_⟩⟩, by simp, ?_⟩
+  · simp [Mem.store8, Mem.block, h1, h2, h4, bind, Except.bind, h3, byteOf]
+  · simp [hx]
+  · intro b' hb'
+    simp [Ne.symm hb']
+
+theorem MemBytes.toCell {m : Mem} {b : Nat} {c : UInt8} (h : MemBytes m b [c]) : MemCell m b := by
+  obtain ⟨blk, h1, h2, h3, h4⟩ := h.blk
+  exact ⟨blk, h1, h2, h3, by rw [h4]; rfl⟩
+
+end MiniC
